@@ -23,6 +23,7 @@ type raceInput struct {
 	PauseUs          int
 	RaceDetector     bool
 	Const            bool // constant recorder on (snapseq runs)
+	DynOff           bool `json:",omitempty"` // dynamic-threshold = false: the detector never builds a background
 }
 
 var raceVarNames = map[int]string{0: "ring-index", 1: "ring-slots", 2: "CurrentFrame", 3: "StartSnapshot", 4: "processor", 5: "headerInfo", 99: "unclassified"}
@@ -70,6 +71,9 @@ func snapSeqRun(in raceInput) (summary map[string]interface{}, ok bool) {
 	os.Mkdir(out, 0755)
 	toml := fmt.Sprintf("[lepton]\nframe-output = %q\n[thermal-recorder]\noutput-dir = %q\nconstant-recorder = %v\nmin-disk-space-mb = 0\npreview-secs = %d\nmin-secs = 1\nmax-secs = 3\n[windows]\nstart-recording = \"12:00\"\nstop-recording = \"12:00\"\n[thermal-throttler]\nactivate = false\n[thermal-motion]\ntrigger-frames = %d\n",
 		filepath.Join(dir, "s"), out, in.Const, in.Preview, in.Trigger)
+	if in.DynOff {
+		toml += "dynamic-threshold = false\n"
+	}
 	ioutil.WriteFile(filepath.Join(dir, "config.toml"), []byte(toml), 0644)
 	cmd := exec.Command(buildDir() + "/tr-driver")
 	cmd.Env = append(os.Environ(), "VERIF_DRIVER=snapseq", fmt.Sprintf("VERIF_ARGS=%s %d %d %d", dir, in.Frames, in.PauseUs, in.Requesters), "TZ=UTC")
@@ -79,6 +83,7 @@ func snapSeqRun(in raceInput) (summary map[string]interface{}, ok bool) {
 		names, _ := filepath.Glob(filepath.Join(out, "*"))
 		sort.Strings(names)
 		var files [][]int
+		var bgs []int
 		var leftovers []string
 		for _, n := range names {
 			if fi, err := os.Stat(n); err != nil || fi.IsDir() {
@@ -89,10 +94,12 @@ func snapSeqRun(in raceInput) (summary map[string]interface{}, ok bool) {
 				continue
 			}
 			files = append(files, uniformFrameValues(n))
+			bgs = append(bgs, backgroundValue(n))
 		}
 		defer func() {
 			if summary != nil {
 				summary["test_files"] = files
+				summary["test_backgrounds"] = bgs
 				summary["leftovers"] = leftovers
 			}
 		}()
@@ -131,6 +138,20 @@ func uniformFrameValues(path string) []int {
 	return vals
 }
 
+// pixel (60,80) of the background frame a CPTV file starts with (-1: none, -2: file does not decode)
+func backgroundValue(path string) int {
+	r, err := cptv.NewFileReader(path)
+	if err != nil {
+		return -2
+	}
+	defer r.Close()
+	fr := r.EmptyFrame()
+	if err := r.ReadFrame(fr); err != nil || !fr.Status.BackgroundFrame {
+		return -1
+	}
+	return int(fr.Pix[60][80])
+}
+
 // TESTREC (C17, test-recording clause through the real wiring): the real handleConn is fed
 // uniform frames one at a time; after every k-th completed frame service.TakeTestRecording() is
 // called, as the D-Bus service would. Every request must yield one finished file in the output
@@ -139,7 +160,7 @@ func init() {
 	runners["TESTREC"] = func(rng *rand.Rand, n int, tier string, emit func(Case)) {
 		for i := 0; i < n; i++ {
 			every := 23 + rng.Intn(30)
-			in := raceInput{Preview: 1, Trigger: 2, Frames: 150 + rng.Intn(60), Conns: 1, Requesters: every, PauseUs: []int{0, 40}[i%2], Const: i%2 == 0}
+			in := raceInput{Preview: 1, Trigger: 2, Frames: 150 + rng.Intn(60), Conns: 1, Requesters: every, PauseUs: []int{0, 40}[i%2], Const: i%2 == 0, DynOff: i%2 == 1}
 			sum, ok := snapSeqRun(in)
 			why := ""
 			var reqs []int
@@ -152,13 +173,35 @@ func init() {
 					ok, why = false, fmt.Sprintf("%d requests, %d finished files", len(reqs), len(files))
 				}
 				for k := 0; k < len(files) && k < len(reqs); k++ {
-					// frame i carries the value i%60000+1; the recording starts with the frame after the request
-					want := make([]int, 21)
-					for j := range want {
-						want[j] = (reqs[k]+1+j)%60000 + 1
+					// frame i carries the value i%60000+1. The request is made once the ring has moved on to frame i,
+					// which Process() does BEFORE it looks at the request flag for frame i: the recording starts
+					// with frame i itself when the request arrives inside that window, otherwise with frame i+1 -
+					// and holds the 21 consecutive frames from there
+					match := false
+					for _, first := range []int{reqs[k], reqs[k] + 1} {
+						want := make([]int, 21)
+						for j := range want {
+							want[j] = (first+j)%60000 + 1
+						}
+						if fmt.Sprint(files[k]) == fmt.Sprint(want) {
+							match = true
+						}
 					}
-					if fmt.Sprint(files[k]) != fmt.Sprint(want) {
+					if !match {
 						ok, why = false, why+fmt.Sprintf(" [request after frame %d: file holds %v]", reqs[k], files[k])
+					}
+				}
+				// the background frame a test recording starts with is the detector's: the first frame (value 2;
+				// later frames only grow, so it is never replaced) or, with the dynamic threshold off, the
+				// never-updated all-zero frame
+				wantBg := 2
+				if in.DynOff {
+					wantBg = 0
+				}
+				bgs, _ := sum["test_backgrounds"].([]int)
+				for k, b := range bgs {
+					if b != wantBg {
+						ok, why = false, why+fmt.Sprintf(" [file %d: background frame holds %d, the detector's holds %d]", k, b, wantBg)
 					}
 				}
 				if l, _ := sum["leftovers"].([]string); len(l) > 0 {
